@@ -1,5 +1,6 @@
 import PromVerif.Py.Wire
 import PromVerif.Model.Gateway
+import PromVerif.Model.GatewayHandlers
 import PromVerif.Spec.Gateway
 namespace PromVerif.Drv.C19
 open PromVerif PromVerif.Wire PromVerif.Py
@@ -76,6 +77,52 @@ def handle : List String → String
     match decText g with
     | some g =>
       s!"ok {encText (Model.Gateway.urlScheme g)} {if Model.Gateway.needsPrefix g then 1 else 0} {encText (Model.Gateway.gatewayBase g)}"
+    | none => "err bad-field"
+  -- the library's own handlers: what `default_handler` / `passthrough_redirect_handler` / `basic_auth_handler` hand to
+  -- urllib's opener for a whole public call (user / password: `-` = None)
+  | ["wire", hd, fn, g, j, gk, t, user, pw] =>
+    let optText := fun (f : String) => if f = "-" then some (none : Option Str) else (decText f).map some
+    match decText g, decText j, decPairs gk, optText user, optText pw with
+    | some g, some j, some gk, some user, some pw =>
+      let call := match fn with
+        | "put" => some (Model.Gateway.pushToGateway (β := String) (τ := String) g j "E" "X" gk t)
+        | "post" => some (Model.Gateway.pushaddToGateway g j "E" "X" gk t)
+        | "delete" => some (Model.Gateway.deleteFromGateway g j "E" "X" gk t)
+        | _ => none
+      let wire := call.bind fun r => match hd with
+        | "default" => some (Model.GatewayHandlers.makeRequest r Generated.Gateway.defaultBase)
+        | "redirect" => some (Model.GatewayHandlers.makeRequest r Generated.Gateway.redirectBase)
+        | "basic" => some (Model.GatewayHandlers.makeRequest (Model.GatewayHandlers.basicAuthRequest r user pw)
+            Generated.Gateway.defaultBase)
+        | _ => none
+      match wire with
+      | some w =>
+        let hdrs := encList (w.headers.map fun kv => encText kv.1 ++ "," ++ encText kv.2)
+        let tmo := match w.timeout with | .given t => t | .globalDefault => "DEFAULT"
+        s!"ok {encText w.url} {encText w.method} {hdrs} {w.body} {tmo} {encText w.base}"
+      | none => "err bad-fn"
+    | _, _, _, _, _ => "err bad-field"
+  -- `if resp.code >= 400: raise OSError`
+  | ["status", code] =>
+    match code.toNat? with
+    | some c => match Model.GatewayHandlers.checkStatus c with
+      | .ok () => "ok returns"
+      | .error e => s!"ok raises:{e.name}"
+    | none => "err bad-field"
+  -- `_PrometheusRedirectHandler.redirect_request` on a request with this method / this header list
+  | ["redir", m, code, newurl, hs] =>
+    match decText m, code.toNat?, decText newurl, decPairs hs with
+    | some m, some c, some nu, some hs =>
+      match Model.GatewayHandlers.redirectRequest (β := String) (τ := String) ⟨[], m, hs, "B", .given "T", []⟩ c nu with
+      | .ok w =>
+        let hdrs := encList (w.headers.map fun kv => encText kv.1 ++ "," ++ encText kv.2)
+        let tmo := match w.timeout with | .given t => t | .globalDefault => "DEFAULT"
+        s!"ok follows {encText w.url} {encText w.method} {hdrs} {w.body} {tmo}"
+      | .error e => s!"ok raises:{e.name}"
+    | _, _, _, _ => "err bad-field"
+  | ["b64std", bs] =>
+    match decBytes bs with
+    | some bs => s!"ok {encText (Model.GatewayHandlers.b64encodeStd bs)}"
     | none => "err bad-field"
   | _ => "err bad-op"
 
